@@ -12,7 +12,9 @@ TRUSTED = [
     "extractor translate/extract_leakplugin.py: statement lists of preTestAction/postTestAction/startChecking/stopChecking/"
     "enable, the failure condition, isInPeriod, the demotion rule, constructor values and the runner's call order are "
     "regenerated into Gen/LeakPluginCode.lean on every run; counting/reporting/stamping loops are shape-checked",
-    "the hash table of the real detector is abstracted to a list (its exactness for every history is property C04)",
+    "the hash table of the real detector is abstracted to a list (its exactness for every history is property C04; "
+    "Props/C07x composes the two); the private-detector mode of the harness uses an arena with chosen addresses so that all "
+    "blocks fall into three hash buckets and bucket-level defects show as wrong verdicts",
     "report text -> (allocation number, size) entries by the harness' parser; truncation of long reports is observed, "
     "not modelled (C14)",
 ]
@@ -24,10 +26,13 @@ ASSUMPTIONS = [
     "the leak plugin is the only plugin that adds failures in post actions; overloads on (the default) unless the case says "
     "`nooverloads`, for which the property demands nothing but the absence of a leak failure",
     "global mode: the only tracked allocation the runner makes inside the window (the test object) is released inside it",
+    "constructor / destructor of the test object perform memory operations only (a failing check there is outside the scripts)",
+    "separate process: fork/waitpid behave (C11); the child's trace is read through shared memory",
 ]
 RULE = ("sequences of 1-30 scripted tests, each with 0-6 alloc/free/realloc per phase (setup, body, teardown, and between tests), "
         "frees of earlier tests' blocks, tracked reallocs of own and earlier blocks with the platform realloc succeeding or "
-        "failing (PlatformSpecificRealloc seam), expected-leak counts 0-3, ignore flag, own failures in any phase; both detector "
+        "failing (PlatformSpecificRealloc seam), memory operations in the constructor / destructor of the test object, tests "
+        "run in a separate process, overload switches between tests, FinalReport(n), destroyGlobalDetector, expected-leak counts 0-3, ignore flag, own failures in any phase; both detector "
         "modes; non-trivial = at least two tests and at least one leak failure or one test passing with outstanding blocks; "
         "distinct = distinct op sequences")
 
@@ -51,6 +56,8 @@ def gen_phase_cmds(rng, sim, tno, ph, n_ops, st, is_global, malformed):
     for _ in range(n_ops):
         executed = not st["aborted"]
         x = rng.random()
+        if st.get("mem_only"):
+            x *= 0.85              # constructor / destructor: memory operations only
         if x < 0.50:
             reuse = sim.freed and rng.random() < 0.10
             if reuse:
@@ -155,6 +162,27 @@ def gen_test(rng, sim, tno, is_global, malformed, bulk=False):
             # a `fail`/`expect`/`ignore` outside a test is not executed: the simulation above did not abort either
         ops += lines
     style = rng.random()
+    separate = (not bulk) and rng.random() < 0.10
+    if separate:
+        ops.append("cmd %d o separate" % tno)
+        saved = (list(sim.live), list(sim.freed), dict(sim.kind))
+    if (not is_global) and rng.random() < 0.08:
+        ops.append("cmd %d o overloads %s" % (tno, rng.choice(["off", "off", "on"])))
+    elif (not is_global) and rng.random() < 0.15:
+        ops.append("cmd %d o overloads on" % tno)
+
+    def obj_phase(ph):
+        # constructor / destructor of the test object: inside the window, never aborted
+        keep = st["aborted"]
+        st["aborted"] = False
+        st["mem_only"] = True
+        lines = gen_phase_cmds(rng, sim, tno, ph, rng.randint(1, 3), st, is_global, malformed)
+        st["mem_only"] = False
+        st["aborted"] = keep
+        return lines
+
+    if (not bulk) and rng.random() < 0.25:
+        ops += obj_phase("c")
     for ph in PHASES:
         if ph == "s":
             st["aborted"] = False
@@ -168,11 +196,16 @@ def gen_test(rng, sim, tno, is_global, malformed, bulk=False):
         if bulk:
             lines = [l for l in lines if l.split()[3] == "alloc"]
         ops += lines
+    dtor_lines = obj_phase("d") if (not bulk) and rng.random() < 0.25 else []
     # steer towards the interesting verdicts: declare exactly the outstanding number / one off
     if not bulk and style < 0.30:
         n = len(st["mine"])
         target = n if rng.random() < 0.6 else max(0, n + rng.choice([-1, 1]))
         ops.append("cmd %d %s expect %d" % (tno, rng.choice(["b", "t"]), target))
+    ops += dtor_lines
+    if separate:
+        # what the child did to the memory does not exist in the parent
+        sim.live, sim.freed, sim.kind = saved
     return ops
 
 
@@ -191,19 +224,22 @@ def gen_case(rng, tier, mode, malformed=False):
         # commands for tests declared long ago (appended to their phases) and for undeclared tests
         for _ in range(rng.randint(1, 6)):
             t = rng.randint(1, ntests + 2)
-            ops.append("cmd %d %s %s" % (t, rng.choice(["o", "s", "b", "t"]),
+            ops.append("cmd %d %s %s" % (t, rng.choice(["o", "c", "s", "b", "t", "d"]),
                                          rng.choice(["alloc %d %d" % (rng.randint(1, 60), rng.randint(0, 20)),
                                                      "free %d" % rng.randint(1, 60), "fail", "ignore",
                                                      "expect %d" % rng.randint(0, 3)])))
     if not is_global and rng.random() < 0.5:
-        ops.append("final")
+        n = len(sim.live)
+        ops.append("final %d" % rng.choice([0, 0, n, n, max(0, n - 1), n + 1]))
+    if is_global and rng.random() < 0.3:
+        ops.append("destroy")
     return ops
 
 
 def fixed_cases():
     """the situations the property names, one each (they also document the protocol)"""
     return [
-        ("fixed", ["mode private", "test 1", "cmd 1 b alloc 1 8", "test 2", "cmd 2 b alloc 2 4", "cmd 2 b free 2", "final"]),
+        ("fixed", ["mode private", "test 1", "cmd 1 b alloc 1 8", "test 2", "cmd 2 b alloc 2 4", "cmd 2 b free 2", "final 0"]),
         ("fixed", ["mode private", "test 1", "cmd 1 b alloc 1 8", "test 2", "cmd 2 b free 1", "cmd 2 b alloc 2 4"]),
         ("fixed", ["mode private", "test 1", "cmd 1 s alloc 1 8", "cmd 1 s fail", "cmd 1 b alloc 2 8", "cmd 1 t alloc 3 8",
                    "test 2", "cmd 2 b expect 1", "cmd 2 b alloc 4 1"]),
@@ -216,6 +252,12 @@ def fixed_cases():
                    "test 3", "cmd 3 b realloc 1 2 20", "test 4", "cmd 4 b free 2"]),
         ("fixed", ["mode global", "test 1", "cmd 1 b expect 1", "cmd 1 b alloc 1 10 malloc", "test 2", "cmd 2 b realloc-fail 1 1000",
                    "test 3", "cmd 3 b realloc 1 2 20", "test 4", "cmd 4 b free 2"]),
+        ("fixed", ["mode private", "test 1", "cmd 1 c alloc 20 8", "cmd 1 b expect 1", "cmd 1 b alloc 1 10", "cmd 1 d free 20",
+                   "test 2", "cmd 2 o separate", "cmd 2 b alloc 5 3", "cmd 2 b free 1",
+                   "test 3", "cmd 3 o overloads off", "cmd 3 b alloc 6 3", "cmd 3 b expect 2",
+                   "test 4", "cmd 4 o overloads on", "cmd 4 d alloc 7 3", "test 5", "cmd 5 b free 1", "cmd 5 b free 5", "final 2"]),
+        ("fixed", ["mode global", "test 1", "cmd 1 c alloc 20 8 new", "cmd 1 b alloc 1 10 malloc", "test 2", "cmd 2 o separate",
+                   "cmd 2 b fail", "test 3", "cmd 3 o separate", "cmd 3 b alloc 2 1 new", "cmd 3 b expect 1", "destroy"]),
         ("fixed", ["mode private nooverloads", "test 1", "cmd 1 b alloc 1 8", "test 2", "cmd 2 b expect 1"]),
         ("fixed", ["mode private"] + ["test 1"] + ["cmd 1 b alloc %d 8" % i for i in range(1, 31)] + ["test 2", "cmd 2 b alloc 40 1"]),
     ]
@@ -258,6 +300,10 @@ def _tests(r):
             last_cmd = w[1:]
         elif cur is not None and last_cmd and last_cmd[0] == "cmd":
             kind = last_cmd[2]
+            if last_cmd[1] in ("c", "d") and w[0] in ("num", "ok") and kind in ("alloc", "free", "realloc"):
+                cur["events"].append("memory_op_in_constructor" if last_cmd[1] == "c" else "memory_op_in_destructor")
+            if kind == "overloads" and w[0] == "ok":
+                cur["events"].append("overloads_switched_" + last_cmd[3])
             if w[0] == "num" and kind == "realloc":
                 old, new = last_cmd[3], last_cmd[4]
                 cur["events"].append("realloc_ok_own_block" if old in cur["mine"] else "realloc_ok_earlier_block")
@@ -294,6 +340,8 @@ def _tests(r):
             cur["trunc"] = w[-1] == "1"
         elif cur is not None and w[0] == "warn":
             cur["warn"] = True
+        elif cur is not None and w[0] == "parentfail":
+            cur["events"].append("separate_process_child_failed" if w[1] != "0" else "separate_process_child_passed")
     return tests
 
 
@@ -342,7 +390,10 @@ LEVEL_TEXT = ("Machine-checked Lean 4 theorems, for every sequence of scripted t
               "number; the report lists exactly those blocks and states their number; no block that was live before a test's pre "
               "action appears in its report; frees of earlier blocks do not change the verdict; a test with an own failure gets "
               "no leak failure; a failed realloc changes nothing (the old block keeps its test), a successful one makes the "
-              "result a block of the reallocating test; flags are reset after every test. The theorems are about an interpreter that executes statement "
+              "result a block of the reallocating test; the window is pre action to post action with createTest/destroyTest "
+              "inside (constructor/destructor allocations count); EXPECT_N_LEAKS assigns (last one wins), IGNORE sticks; a test in "
+              "a separate process leaves the parent's detector unchanged and costs the parent exactly one failure iff the child "
+              "failed; FinalReport(n) is silent iff n enabled blocks are outstanding; overloads off: warning instead of failure; flags are reset after every test. The theorems are about an interpreter that executes statement "
               "lists regenerated from the C++ source on every run; interpreter and abstract detector are tied to the code by a "
               "differential harness (real plugin, real runner, private and global detector, ASan/UBSan) and the "
               "implementation's own observations are judged by an independent specification oracle.")
